@@ -286,6 +286,8 @@ class Broker:
             else:
                 self._respond(conn, req, None, body)
             return
+        if kind == "corrupt_once":
+            req.corrupt_once = True
         respond = lambda body: self._respond(conn, req, action, body)  # noqa: E731
         try:
             self.cluster.handle(self, conn, req, respond)
@@ -754,6 +756,18 @@ class Cluster:
                     first_nonempty = False
                     remaining = max(0, remaining - len(data))
                     nbytes += len(data)
+                if data and getattr(req, "corrupt_once", False):
+                    # transient corruption on the way (this response only): one byte of the
+                    # last complete v2 batch, behind its checksum field
+                    spans = [sp for sp in recfmt.batch_spans(data) if sp[2] >= 2]
+                    if len(spans) >= 2 or (spans and getattr(req, "corrupt_any", False)):
+                        s_, e_, _m = spans[-1]
+                        if e_ - s_ > 70:
+                            mb = bytearray(data)
+                            mb[e_ - 3] ^= 0x5A
+                            data = bytes(mb)
+                            req.corrupt_once = False
+                            self.world.count_fault("corrupt_once")
                 ent["records"] = data
                 if iso == 1 and v >= 4:
                     ent["aborted_transactions"] = [
